@@ -107,6 +107,7 @@ type Run struct {
 	dirN        int
 
 	clients  []*clientState
+	lastLock map[uint64]lockAttr // goroutine id -> kind of the last lock-acquiring point released for it
 	goidTag  map[uint64]int
 	hello    chan helloMsg
 	done     chan OpResult
@@ -157,7 +158,7 @@ const (
 func NewRun(sc *Scenario, tape *Tape) *Run {
 	return &Run{sc: sc, tape: tape,
 		runnerOwner: map[*prunner.PipelineRunner]*World{}, storeOwner: map[*store.JsonDataStore]*World{},
-		goidTag: map[uint64]int{}, hello: make(chan helloMsg, 64), done: make(chan OpResult, 64),
+		goidTag: map[uint64]int{}, lastLock: map[uint64]lockAttr{}, hello: make(chan helloMsg, 64), done: make(chan OpResult, 64),
 		stats: Stats{Faults: map[string]int{}, Probes: map[string]int{}, AbstractSeen: map[string]bool{}},
 	}
 }
@@ -279,6 +280,12 @@ func (run *Run) faultHook(point string, ctx []interface{}) error {
 	if point == "store.save.encode" {
 		if js, ok := ctx[0].(*store.JsonDataStore); ok {
 			if w := run.storeOwner[js]; w != nil && w.takeFailNextSave() {
+				// the disk filled up in the middle of the write: the temp file is incomplete
+				if tmp, ok := ctx[1].(string); ok {
+					if fi, err := os.Stat(tmp); err == nil {
+						_ = os.Truncate(tmp, fi.Size()/2)
+					}
+				}
 				return errors.New("simulated ENOSPC")
 			}
 		}
@@ -338,9 +345,9 @@ func (run *Run) collect() {
 		for _, p := range append([]*parked(nil), run.core.parkedQ...) {
 			point, _, owner, gid, _, _ := p.rd()
 			w := run.worldOf(owner)
-			if p.tag == "" {
+			if run.core.tags[p] == "" {
 				if c, ok := run.goidTag[gid]; ok {
-					p.tag = fmt.Sprintf("@c%d", c)
+					run.core.tags[p] = fmt.Sprintf("@c%d", c)
 				}
 			}
 			if w != nil && w.isDead() {
@@ -359,21 +366,51 @@ func (run *Run) collect() {
 	run.core.sortParked()
 }
 
-// readersInside counts records parked while holding the read lock.
+// holdKind: which lock a record parked inside a harness callback holds. The
+// callback itself cannot know whether its caller took the read or the write
+// lock; the driver remembers the last lock-acquiring point it released for that
+// goroutine.
+func (run *Run) holdKind(p *parked) lockAttr {
+	_, _, _, gid, attr, _ := p.rd()
+	if attr != lkHoldR && attr != lkHoldW {
+		return lkNone
+	}
+	if run.lastLock[gid] == lkW {
+		return lkHoldW
+	}
+	return lkHoldR
+}
+
+// readersInside counts records parked while holding the runner lock (read or write).
 func (run *Run) readersInside() int {
 	n := 0
 	for _, p := range run.core.parkedQ {
-		if _, _, _, _, attr, _ := p.rd(); attr == lkHoldR {
+		if run.holdKind(p) != lkNone {
 			n++
 		}
 	}
 	return n
 }
 
+func (run *Run) writerInside() bool {
+	for _, p := range run.core.parkedQ {
+		if run.holdKind(p) == lkHoldW {
+			return true
+		}
+	}
+	return false
+}
+
+// grantable: the lock model of DESIGN §2.4. A record that is about to take the
+// write lock is not released while anybody is parked inside; one that is about
+// to take the read lock not while a write-lock holder is parked inside.
 func (run *Run) grantable(p *parked) bool {
 	_, _, _, _, attr, _ := p.rd()
-	if attr == lkW && run.readersInside() > 0 {
-		return false
+	switch attr {
+	case lkW:
+		return run.readersInside() == 0
+	case lkR:
+		return !run.writerInside()
 	}
 	return true
 }
@@ -394,7 +431,7 @@ func (run *Run) buildChoices() []choice {
 	var cs []choice
 	last := ""
 	for _, p := range run.core.parkedQ {
-		n := p.final()
+		n := run.core.final(p)
 		if n == last || !run.grantable(p) {
 			continue
 		}
@@ -468,7 +505,9 @@ func (run *Run) Execute() (err error) {
 	run.mon.onWorldStart(w, nil)
 	synctest.Wait()
 	run.collect()
-	run.pre = run.snapshot(w)
+	if !run.sc.Cfg.NoOracle {
+		run.pre = run.snapshot(w)
+	}
 
 	// main phase
 	for run.step < run.sc.Cfg.MaxSteps && !run.stopMain {
@@ -482,7 +521,9 @@ func (run *Run) Execute() (err error) {
 	// drain phase: no more client ops, no more faults, fair scheduling, tasks succeed
 	run.mode = modeDrain
 	run.drain()
-	run.mon.onEnd()
+	if !run.sc.Cfg.NoOracle {
+		run.mon.onEnd()
+	}
 	run.stats.Steps = run.step
 	run.stats.SimTime = time.Since(run.t0)
 	run.teardown()
@@ -543,7 +584,7 @@ func (run *Run) settleChoice() (choice, bool) {
 	for {
 		for _, p := range run.core.parkedQ {
 			point, _, _, _, _, _ := p.rd()
-			if p.tag != "" || point == "task.exec" || point == "task.open" || !run.grantable(p) {
+			if run.core.tags[p] != "" || point == "task.exec" || point == "task.open" || !run.grantable(p) {
 				continue
 			}
 			run.settleN++
@@ -551,7 +592,7 @@ func (run *Run) settleChoice() (choice, bool) {
 				run.stats.Inconclusive = append(run.stats.Inconclusive, "settle did not converge")
 				return choice{}, false
 			}
-			return choice{kind: "release", rec: p, name: p.final()}, true
+			return choice{kind: "release", rec: p, name: run.core.final(p)}, true
 		}
 		d := 51 * time.Millisecond
 		if run.settleEp {
@@ -613,7 +654,8 @@ func (run *Run) apply(ch choice) {
 			if w := run.worldOf(owner); w != nil && w.shutdownBegun == 0 {
 				w.shutdownBegun = run.step + 1
 			}
-		case "SaveToStore":
+		}
+		if isSavePoint(point) {
 			if w := run.worldOf(owner); w != nil && run.sc.Cfg.Logs && !w.isDead() {
 				run.logsBefore = run.listLogs(w)
 				w.failRemove = 0
@@ -623,6 +665,14 @@ func (run *Run) apply(ch choice) {
 				}
 			}
 
+		}
+		if _, _, _, g, attr, _ := ch.rec.rd(); attr == lkR || attr == lkW {
+			run.lastLock[g] = attr
+			if attr == lkR && run.readersInside() > 0 {
+				run.probe("read_lock_holder_ran_inside_another")
+			}
+		} else if attr == lkHoldR && run.readersInside() > 1 {
+			run.probe("read_lock_holder_ran_inside_another")
 		}
 		run.mon.beforeRelease(&si, ch.rec)
 		if run.CrashLog != "" {
@@ -681,7 +731,7 @@ func (run *Run) recordStep(si StepInfo) {
 		evs[i].At = now
 	}
 	var post *Snap
-	if run.cur != nil && !run.cur.isDead() {
+	if run.cur != nil && !run.cur.isDead() && !run.sc.Cfg.NoOracle {
 		post = run.snapshot(run.cur)
 	}
 	line := fmt.Sprintf("%d %.3f %s", si.N, now.Seconds(), si.Name)
@@ -713,7 +763,7 @@ func (run *Run) taskOutcome(s *stub, rec *parked) (int, string) {
 	_, name, _, _, _, _ := rec.rd()
 	// name is task.exec:jN/task
 	taskName := name[strings.LastIndex(name, "/")+1:]
-	pipeline := run.mon.pipelineOf(s.job)
+	pipeline := s.pipeline
 	for _, f := range run.sc.Fates {
 		if f.Pipeline == pipeline && f.Task == taskName {
 			if f.Fate == "fail" {
@@ -953,6 +1003,9 @@ func (run *Run) crash(si *StepInfo) {
 	var newDirSrc string
 	if w.mem != nil {
 		initial = w.mem.last()
+		if initial == nil {
+			initial = w.mem.initial // no save completed in this world: the store still holds what it started from
+		}
 	}
 	if w.dir != "" {
 		newDirSrc = w.dir
@@ -1037,7 +1090,7 @@ func (run *Run) drain() {
 		}
 		if pick != nil {
 			idle = 0
-			run.apply(choice{kind: "release", rec: pick, name: pick.final()})
+			run.apply(choice{kind: "release", rec: pick, name: run.core.final(pick)})
 			continue
 		}
 		dt := run.core.advanceUntilArrival(maxDelay)
